@@ -397,12 +397,12 @@ theorem canon_specTrimRow {seq r : List Char} (h : Canon r) : Canon (specTrimRow
   · exact canon_take h _
   · exact h
 
-/-- old `SequenceCollection.get_translation` is row-wise the specification, provided no row ends in TWO stop codons
-(the pre-pass and the per-row call both trim) and not `include_stop = trim_stop = True` -/
+/-- old `SequenceCollection.get_translation` is row-wise the specification (not for `include_stop = trim_stop = True`;
+a row that is nothing but a stop codon would become empty and is excluded) -/
 theorem old_coll_rowwise (seq : List Char)
     (hget : ∀ a ∈ GCSpec.bases, ∀ b ∈ GCSpec.bases, ∀ c ∈ GCSpec.bases, oldGetItem seq [a, b, c] = GCSpec.aa seq [a, b, c])
     (rows : List (List Char)) (h : CodonRows rows) (io is_ ts : Bool) (hopt : ¬ (is_ = true ∧ ts = true))
-    (hdouble : ∀ r ∈ rows, endsWithStop seq r = true → 3 < r.length ∧ endsWithStop seq (r.take (r.length - 3)) = false) :
+    (hlen : ∀ r ∈ rows, endsWithStop seq r = true → 3 < r.length) :
     oldCollGetTranslation seq rows io is_ ts = specCollTranslation seq rows io is_ ts := by
   unfold oldCollGetTranslation specCollTranslation
   by_cases hpre : (ts && !is_) = true
@@ -410,36 +410,46 @@ theorem old_coll_rowwise (seq : List Char)
     have hts : ts = true := by cases ts <;> simp_all
     have his : is_ = false := by cases is_ <;> simp_all
     subst hts; subst his
-    simp only [Bool.not_false, Bool.and_self, if_true, coll_trim' seq (oldGetItem seq) hget (!io) rows h]
+    simp only [Bool.not_false, Bool.and_self, if_true, coll_trim' seq (oldGetItem seq) hget (!io) rows h,
+      coll_has_terminal_stop' seq (oldGetItem seq) hget (!io) rows h, Bool.true_and]
     rw [List.mapM_map]
     apply mapM_congr'
     intro r hr
     obtain ⟨hc, hne, h3⟩ := h r hr
-    show oldSeqGetTranslation seq (specTrimRow seq r) true false true = _
-    cases hE : endsWithStop seq r
-    · -- nothing trimmed
+    cases hany : rows.any (endsWithStop seq)
+    · -- no row has a terminal stop: `seqs is self`, every row is translated with trim_stop=True
+      have hE : endsWithStop seq r = false := by
+        rw [List.any_eq_false] at hany
+        simpa using hany r hr
       have : specTrimRow seq r = r := by simp [specTrimRow, hE]
+      show oldSeqGetTranslation seq (specTrimRow seq r) true false true = _
       rw [this, old_stop_rules seq hget r hc hne true false true (by simp), spec_io_irrelevant seq r h3 true io]
-    · obtain ⟨hlen, hE2⟩ := hdouble r hr hE
-      have htr : specTrimRow seq r = r.take (r.length - 3) := by simp [specTrimRow, hE]
-      have hc2 : Canon (r.take (r.length - 3)) := canon_take hc _
-      have hne2 : r.take (r.length - 3) ≠ [] := by
-        intro e
-        have := congrArg List.length e
-        rw [List.length_take] at this; simp at this; omega
-      have h32 : (r.take (r.length - 3)).length % 3 = 0 := by rw [List.length_take]; omega
-      rw [htr, old_stop_rules seq hget _ hc2 hne2 true false true (by simp)]
-      -- both sides: the translation without its terminal stop, rejected if a stop remains
-      obtain ⟨hl, hsplit⟩ := translate_split_last seq r h3 hne
-      have hdl : GCSpec.translate seq (r.take (r.length - 3)) = (GCSpec.translate seq r).dropLast := by
-        obtain ⟨a, b, c, habc, _, _, _⟩ := lastN3_canon hc hl
-        rw [hsplit, habc]; simp [GCSpec.translate]
-      have e1 : (GCSpec.translate seq r).getLast? = some '*' := by
-        simpa [endsWithStop] using hE
-      have e2 : ¬ ((GCSpec.translate seq r).dropLast.getLast? = some '*') := by
-        have := hE2; rw [endsWithStop, hdl] at this; simpa using this
-      unfold GCSpec.getTranslation
-      simp [h3, h32, hdl, e1, e2]
+    · -- some row was trimmed: the per-row call no longer trims
+      show oldSeqGetTranslation seq (specTrimRow seq r) true false false = _
+      cases hE : endsWithStop seq r
+      · have : specTrimRow seq r = r := by simp [specTrimRow, hE]
+        have e1 : ¬ ((GCSpec.translate seq r).getLast? = some '*') := by
+          simpa [endsWithStop] using hE
+        rw [this, old_stop_rules seq hget r hc hne true false false (by simp)]
+        unfold GCSpec.getTranslation
+        simp [h3, e1]
+      · have hlen' := hlen r hr hE
+        have htr : specTrimRow seq r = r.take (r.length - 3) := by simp [specTrimRow, hE]
+        have hc2 : Canon (r.take (r.length - 3)) := canon_take hc _
+        have hne2 : r.take (r.length - 3) ≠ [] := by
+          intro e
+          have := congrArg List.length e
+          rw [List.length_take] at this; simp at this; omega
+        have h32 : (r.take (r.length - 3)).length % 3 = 0 := by rw [List.length_take]; omega
+        rw [htr, old_stop_rules seq hget _ hc2 hne2 true false false (by simp)]
+        obtain ⟨hl, hsplit⟩ := translate_split_last seq r h3 hne
+        have hdl : GCSpec.translate seq (r.take (r.length - 3)) = (GCSpec.translate seq r).dropLast := by
+          obtain ⟨a, b, c, habc, _, _, _⟩ := lastN3_canon hc hl
+          rw [hsplit, habc]; simp [GCSpec.translate]
+        have e1 : (GCSpec.translate seq r).getLast? = some '*' := by
+          simpa [endsWithStop] using hE
+        unfold GCSpec.getTranslation
+        simp [h3, h32, hdl, e1]
   · have hpre' : (ts && !is_) = false := by simpa using hpre
     simp only [hpre', Bool.false_eq_true, if_false]
     apply mapM_congr'
